@@ -7,8 +7,20 @@
    memory-path Commit may occur anywhere after it (SyncAdd only restricts where), the three lookups of a Get may be
    interleaved with anything (GetMem/GetFd/GetOpen), which pooled buffer sync.Pool hands out is chosen by the
    environment, LRU capacities are arbitrary.  [committed s k v] = some writer of key k executed Commit and v is the
-   concatenation of all its Writes. *)
-From Coq Require Import List Arith NArith Bool.
+   concatenation of all its Writes.
+
+   Protocol assumed of one writer / reader (what cache.Writer documents: "Commit() must be called after data is fully written
+   to Write(). To abort the written data, Abort() must be called"): Write* ; (Commit | Abort) ; Close, no use of a reader after
+   its Close.  "Every interleaving of Add/Write/Commit/Abort/Close" = every interleaving of such sequences of different
+   writers.  An op outside it (Commit;Abort, Commit;Commit, Abort;Commit, Commit;Write, Commit after Close on one writer) is a
+   no-op of the model, i.e. such histories are identified with the history without that op; the implementation does NOT
+   tolerate the first four on a memory-layer writer (putBuffer resets / Write extends the buffer already published in the
+   LRU: the next Get hits with "" or with extra bytes - reproduced by the harness probe, see props.d/C11.py), so the
+   theorems below say nothing about callers that issue them.  No caller in /repo does: each writer is local to one function
+   call that ends in "Abort(); return" or "return Commit()" plus a deferred Close (fs/reader/reader.go cacheWithReader,
+   prefetchEntireFileSequential, prefetchEntireFile, cacheData; fs/remote/blob.go fetchRange; the persist closure of
+   cache.go itself). *)
+From Coq Require Import List Arith NArith ZArith Bool.
 From SV Require Import Model.Cache Proofs.Cache.
 Import ListNotations.
 
